@@ -150,9 +150,20 @@ func raRoomID(version string, ev jv) string {
 
 func raBuildState(version string, auth []jv) raState {
 	st := raState{Version: version, Federate: true, Members: map[string]string{}, MembersOK: true, TPI: map[string]raTPI{}, Rooms: map[string]bool{}, JoinRule: "invite", JoinRuleOK: true, PLOK: true}
-	for _, e := range auth {
+	// a list that names one (type, state_key) twice stands for the state holding the LATER event
+	// (AuthEvents.AddEvent's documented replacement); the replaced event is not part of the state
+	last := map[string]int{}
+	for i, e := range auth {
+		if sk, ok := e.get("state_key"); ok && sk.K == 's' {
+			last[evStr(e, "type")+"\x00"+sk.S] = i
+		}
+	}
+	for i, e := range auth {
 		sk, hasSK := e.get("state_key")
 		if !hasSK || sk.K != 's' {
+			continue
+		}
+		if last[evStr(e, "type")+"\x00"+sk.S] != i {
 			continue
 		}
 		st.Rooms[raRoomID(version, e)] = true
